@@ -16,9 +16,10 @@
 //
 // Direct oracle: c07-client-head (a callback is missing after the wait, arrives out of order, reports an error, or
 // reports the wrong status / body for its request). For scripts that contain a HEAD request whose reply announces a
-// body this is the known finding HTTP-CLIENT-HEAD (the client parser is not told the request method); the model
-// predicts exactly what the defective parser delivers, so the correspondence on got= / err= still holds. Scripts
-// without HEAD wait up to 5 s per case, scripts with HEAD 2 s (their reports are the known finding either way).
+// body (hl, hc) this is the known finding HTTP-CLIENT-HEAD (the client parser is not told the request method); what
+// reaches the callbacks then depends on timing (a parse error closes the connection and fails every callback whose
+// job the executor has not run yet), so got= / err= are printed as "~" on both sides and only the oracle speaks.
+// Scripts without HEAD wait up to 5 s per case, scripts with HEAD 2 s.
 package main
 
 import (
@@ -238,7 +239,14 @@ func exec(e *lp.Exec) {
 		cc.Close()
 		e.Key(f[2], nhead > 0 || len(toks) > 1)
 		e.Count("requests", strconv.Itoa(len(toks)))
-		e.P("R client got=%s err=%d", strings.Join(out, ","), failed)
+		if strings.Contains(","+f[2], ",hl") || strings.Contains(","+f[2], ",hc") {
+			// known finding HTTP-CLIENT-HEAD: the misparse ends in a parse error, and whether the responses parsed
+			// before it reach their callbacks or are failed by the close depends on the executor's timing — the
+			// oracle reports above are the witness, the deliveries are not compared
+			e.P("R client got=~ err=~")
+		} else {
+			e.P("R client got=%s err=%d", strings.Join(out, ","), failed)
+		}
 	}
 }
 
